@@ -82,3 +82,17 @@ claim(
     "Trusted: arrivals/departures/estimated departures pairwise distinct, laxity/processing-time near ties discarded and counted; noise off; no upper-bound estimator; the shift relation is claimed for max_recompute in {None,1} or a first event in period 0.",
     "DESIGN.md 3/C10",
 )
+claim(
+    "C07",
+    "Hypothesis-generated whole simulations under greedy / round-robin with every option; a wrapper captures every emitted schedule and the estimator's returned bounds; per-schedule validity predicates (exact phasor feasibility, independent EVSE predicate, remaining-demand and estimator bounds, zero for inactive stations) plus run-level warnings/exceptions/over-delivery",
+    "Exploration: 400 (quick, ~4 000 schedules) / 30 000 (thorough) generated simulations over continuous-from-zero and finite-rate EVSEs, three-phase mixed-sign binding constraints, tiny to large requests, throttling batteries, 5 sort orders x uninterrupted x SimpleRampdown(generated thresholds) x increments x max_recompute. Every emitted schedule satisfies the five validity clauses; no infeasible-schedule warning, no exception, no session receives more than it requested.",
+    "Trusted: acnverif/oracles/phasor.py; default network tolerances; deadband / min_rate>0 EVSEs are outside the property's stated domain.",
+    "DESIGN.md 3/C07",
+)
+claim(
+    "C08",
+    "Hypothesis-generated single invocations vs. independent oracles: own sort keys; closed-form (quadratic) maximum per continuous session and brute force over levels for finite-rate sessions given earlier grants; reconstruction of every round-robin attempt from the final levels; exact rule for the uncontrolled baseline",
+    "Exploration: 1 200 + 800 + 300 (quick) / 150 000 + 100 000 + 20 000 (thorough) generated invocations with partially served sessions (history built through EV.charge), distinct priority keys, several binding mixed-sign three-phase constraints. Greedy: each session in priority order gets the closed-form maximum (within the 0.01 A bisection resolution) or exactly the largest feasible level. Round-robin: every successful raise feasible, every stop blocked or at its own bound. Uncontrolled: exactly the station maximum for active sessions, nothing else.",
+    "Trusted: the closed-form / brute-force oracles in acnverif/props/c08.py; invocation at period 0; key near-ties (1e-6), margins within 1e-9 of zero and levels within 1e-9 of a float bound are discarded and counted.",
+    "DESIGN.md 3/C08",
+)
